@@ -1,6 +1,7 @@
 package c16
 
 import (
+	"bytes"
 	"fmt"
 	"strings"
 
@@ -249,6 +250,40 @@ func runEquals(e *vlib.Env, res *vlib.Result) {
 			}
 			res.Fail(clause, "pair kind %s: %s = %v but the independent comparison of UUID, payload bytes and key/value sets says %v; a=%v b=%v", kind, dir, got, want, a, b)
 			res.Witness = map[string]any{"kind": kind, "a": a, "b": b, "a.Equals(b)": ab, "b.Equals(a)": ba, "reference": want}
+		}
+		// the same pair again with both payloads cut from ONE backing array (frames of one buffer, a truncated Copy):
+		// possible whenever one payload is a byte prefix of the other; Equals must still decide on the bytes and lengths only.
+		la, lb := len(a.Payload), len(b.Payload)
+		lo, long := la, b.Payload
+		if lb < la {
+			lo, long = lb, a.Payload
+		}
+		if a.NilPay || b.NilPay || lo == 0 || !bytes.Equal(a.Payload[:lo], b.Payload[:lo]) {
+			return
+		}
+		buf := append(make([]byte, 0, len(long)+1), long...)
+		sa, sb := a.build(), b.build()
+		sa.Payload, sb.Payload = buf[:la:la], buf[:lb:lb]
+		var sab, sba bool
+		if p := guard(func() { sab = sa.Equals(sb); sba = sb.Equals(sa) }); p != "" {
+			res.Fail("panic", "Equals panicked (%s) for pair kind %s with payloads sharing a backing array: a=%v b=%v", p, kind, a, b)
+			return
+		}
+		res.Events += 2
+		res.Count("pairs_shared_backing_array", 1)
+		if la != lb {
+			res.Count("pairs_shared_backing_array_different_length", 1)
+		}
+		for di, got := range []bool{sab, sba} {
+			if got == want {
+				continue
+			}
+			clause := "equals-true-for-different"
+			if want {
+				clause = "equals-false-for-same"
+			}
+			res.Fail(clause, "pair kind %s, payloads are slices [:%d] and [:%d] of one backing array: %s = %v but the independent comparison says %v; a=%v b=%v", kind, la, lb, []string{"a.Equals(b)", "b.Equals(a)"}[di], got, want, a, b)
+			res.Witness = map[string]any{"kind": kind, "shared_backing_array": true, "a": a, "b": b, "a.Equals(b)": sab, "b.Equals(a)": sba, "reference": want}
 		}
 	}
 	for _, cp := range corpusPairs() {
